@@ -3,6 +3,7 @@ package main
 // Drivers for the item algebra: observers (C16), fill = substitution (C09), constructors (C12).
 
 import (
+	"encoding/json"
 	"fmt"
 	"math"
 	"math/big"
@@ -17,6 +18,7 @@ import (
 func init() {
 	drivers["snap"] = driverSnap
 	drivers["fill"] = driverFill
+	drivers["fillself"] = driverFillSelf
 	drivers["fillell"] = driverFillEll
 	drivers["ctor"] = driverCtor
 }
@@ -1466,3 +1468,71 @@ func hasSpace(s string) bool {
 }
 
 var _ = strconv.Itoa
+
+// fillself (isolated worker): one call that fills a repeat marker and, into a list-level variable, a list that is live
+// elsewhere - a list with a variable of its own (and a key for that variable in the same map), a list another parent
+// holds, the template itself.  The one-call fill equals the fill in two steps (C09: composition), nothing that
+// existed before is changed by it (pure substitution), and the call returns - a process that dies in it is recorded
+// by the parent as outcome "abort".
+func driverFillSelf(c *Ctx) {
+	for i := c.From; i < c.N; i++ {
+		if !c.want(i) {
+			continue
+		}
+		c.emit(i, J{"ev": "begin", "variant": 0})
+		c.out.Flush()
+		g := c.gen(i)
+		x := fmt.Sprintf("x%d", i)
+		inner := ast.NewListNode(ast.NewUintNode(1, x), ast.NewASCIINode("keep"))
+		if g.pick(3) == 0 {
+			inner = ast.NewListNode(ast.NewListNode(ast.NewIntNode(2, x, 5)), ast.NewBooleanNode(true))
+		}
+		var tm ast.ItemNode
+		switch g.pick(3) {
+		case 0:
+			tm = ast.NewListNode(ast.NewListNode(ast.NewUintNode(1, "a"), "..."), "item")
+		case 1:
+			tm = ast.NewListNode("item", ast.NewListNode(ast.NewListNode(ast.NewBinaryNode("b"), "..."), ast.NewASCIINode("t")))
+		default:
+			tm = ast.NewListNode(ast.NewUintNode(2, "a"), "item", "...", ast.NewListNode(ast.NewFloatNode(8, "f")))
+		}
+		var val ast.ItemNode = inner
+		how := g.pick(3)
+		var other ast.ItemNode
+		switch how {
+		case 1: // the list is held by another parent too
+			other = ast.NewListNode(inner, ast.NewUintNode(1, 9))
+		case 2: // the template goes into its own variable
+			val = tm
+		}
+		n := g.pick(3)
+		withKey := g.pick(2) == 0
+		one := map[string]interface{}{"...": n, "item": val}
+		if withKey {
+			one[x] = 7
+		}
+		dig := func(it ast.ItemNode) string {
+			b, _ := json.Marshal(observe(it))
+			return string(b)
+		}
+		before := []string{dig(inner), dig(tm)}
+		if other != nil {
+			before = append(before, dig(other))
+		}
+		ev := J{"ev": "fillself", "how": how, "n": n, "withkey": withKey, "outcome": "returned", "same": false, "pure": false, "refused": false}
+		var r1, r2 ast.ItemNode
+		p1, _ := try(func() { r1 = tm.FillVariables(one) })
+		p2, _ := try(func() {
+			r2 = tm.FillVariables(map[string]interface{}{"...": n}).FillVariables(map[string]interface{}{"item": val})
+		})
+		ev["refused"] = p1
+		ev["same"] = p1 == p2 && (p1 || dig(r1) == dig(r2))
+		after := []string{dig(inner), dig(tm)}
+		if other != nil {
+			after = append(after, dig(other))
+		}
+		ev["pure"] = strings.Join(before, "|") == strings.Join(after, "|")
+		c.emit(i, ev)
+		c.count("fillself.cases")
+	}
+}
